@@ -216,6 +216,8 @@ func (x *txnCtx) execOp(op *Op) {
 		x.deleteAt(off)
 	case "range":
 		x.rangeOp(op)
+	case "frange":
+		x.filteredRangeConc(op)
 	case "deleteall":
 		x.deleteAll(op)
 	case "count", "agg", "ascend":
